@@ -57,6 +57,10 @@ CHECKS["C04"] = dict(cat="model_checking", design="DESIGN.md §4 C04, Appendix A
    text="PgSem.tla is the PostgreSQL semantics the property asks for, written as a TLA+ interpreter: three-valued logic, NULL propagation, jsonb_typeof, ->, ->>, #>>'{}', ::int, jsonb_array_length, bool_and over jsonb_each / jsonb_array_elements, IF / CASE / RETURN / := / DECLARE, calls between functions with fuel, CHECK passes unless FALSE. The real SQL output of seeded random packages (one jsonb column per top-level type) is parsed into ASTs by a PL/pgSQL parser; TLC runs the real validators, under that semantics, on the documents the compiled Go code emits for values of the column types (must pass), on single-point corruptions of them from the five listed classes built from the typed value tree (must not pass), and checks that every called validation function is defined.",
    note="Trusted: TLC; PgSem.tla as the model of PostgreSQL (no server is installed; evaluation-order assumption recorded in the evidence); the PL/pgSQL parser and the corruptor of the harness (a corruption is only built when the harness re-encodes the emitted document exactly). An ERROR on a corrupted document counts as rejection.",
    tech="TLA+ interpreter of the PL/pgSQL / jsonb fragment (PgSem.tla) run by TLC on the parsed real validators (TracePg.tla) against documents emitted by compiled Go code and their typed corruptions")
+CHECKS["C08"] = dict(cat="model_checking", design="DESIGN.md §4 C08",
+   text="PgDDL.tla is the documented Go-to-SQL mapping as a total function over abstract table structs (column selection, SQL type, nullability, serial primary key, enum / length / jsonb CHECKs, guards with default and equality check, foreign keys from ID types or tags with ON DELETE, snake-case-plural names, composite declarations). PgDDLModel.tla fixes the type declarations Env0 and the universe of column specifications; TLC checks totality and internal consistency on it and exports it. The harness renders Env0 and model files covering every specification, runs the real SQL generator, parses its output into descriptors, and TraceDDL.tla requires descriptor equality with PgDDL's expectation.",
+   note="Trusted: TLC; the SQL DDL parser of the harness. Exactness property: the expected value is defined by the property and transcribed in PgDDL.tla (ambiguous points — which integer kinds are smallint, Go-exported json:\"-\" fields being columns, the snake-case rule — are listed as assumptions in the evidence).",
+   tech="TLA+ definition of the Go-to-SQL mapping (PgDDL.tla) with a TLC-checked, TLC-exported universe (PgDDLModel.tla) + verdict-style trace validation (TraceDDL.tla) of the parsed real SQL output")
 NOT_APPLICABLE = {}
 ALL = ["C%02d" % i for i in range(1, 21)]
 
